@@ -24,9 +24,12 @@ branches included:
 
 The KV store is three association lists (records, counters, expiration queue): the three
 key spaces have distinct one-byte prefixes, so writes to one never touch another.
-Not modelled (assumptions of `checks/C16.json`): name normalisation (names in messages are
-already normalised), the max-value-length parameter, the 100 000 per-block cap of the sweep,
-metadata scope addresses as attribute holders.
+Names in messages need not be normalised: a message is an `SOp` = the message with the
+NORMALISED name (`Op`) plus a `Spelling` saying how the three key functions of the Go code treat
+the raw spelling (section "non-normalised spellings" below, `stepS`).  Stored names (name
+records, attribute records) are always normalised, so `State` is unchanged.
+Not modelled (assumptions of `checks/C16.json`): the max-value-length parameter, the 100 000
+per-block cap of the sweep, metadata scope addresses as attribute holders.
 -/
 namespace PvModel.Attr
 
@@ -334,6 +337,85 @@ def apply (s : State) (op : Op) : State :=
   | .error _ => s
 
 def run (s : State) (ops : List Op) : State := ops.foldl apply s
+
+/-! ### non-normalised spellings of the name in a message
+
+A message may spell its name differently from the stored (normalised) form: letter case,
+white space around the whole name, white space around a segment.  Such messages pass
+`ValidateBasic` (only `strings.TrimSpace(name) != ""` is demanded, `x/attribute/types/msgs.go`,
+`x/name/types/msgs.go`).  Three functions of the Go code map a raw spelling to a store key, and
+they do not agree:
+
+* `nameKeeper.Normalize` (name/keeper/keeper.go:258, `types.NormalizeName`): lower-case and
+  trim every segment — the normalised name `Op` carries;
+* `nametypes.GetNameKeyPrefix` (name/types/keys.go:33; used by `GetRecordByName`, `ResolvesTo`,
+  `NameExists`): trims every segment, does NOT lower-case;
+* `attrtypes.GetNameKeyBytes` (attribute/types/keys.go:107; every attribute store key):
+  lower-cases and trims the whole string, NOT the segments.
+
+`Spelling` records, for the raw name of one message, whether it is the normalised name itself
+(`exact`), whether the name-module key of the raw spelling is the key of the normalised name
+(`nameKeyHit`) and whether the attribute-module key is (`attrKeyHit`).  The driver computes the
+three flags from the raw string; stored names are always normalised, so a look-up by the raw
+spelling finds the record of the normalised name when the flag is set and nothing otherwise
+(sha256 injective).  When `exact` holds the other two flags are irrelevant. -/
+
+structure Spelling where
+  exact : Bool := true
+  nameKeyHit : Bool := true
+  attrKeyHit : Bool := true
+  deriving DecidableEq, Repr, Inhabited
+
+/-- A message: `op` carries the NORMALISED name, `sp` how the raw name was spelt. -/
+structure SOp where
+  sp : Spelling
+  op : Op
+  deriving Repr
+
+/-- `UpdateAttribute` (keeper.go:216) when the attribute key of the raw name misses: both names
+are normalised for the checks (:233-:247), the signer must own the normalised name (:251-:257),
+but the original record is fetched under `AddrAttributeKey(addr, originalAttribute)` whose
+name is still the raw one (:260-:262) → nothing found. -/
+def updateAttributeKeyMiss (s : State) (orig upd : Attribute) (owner : String) : Except Err State :=
+  if !validateBasic orig then .error .invalid
+  else if !validateBasic upd then .error .invalid
+  else if !s.accts.contains owner then .error .noacct
+  else if !resolvesTo s upd.name owner then .error .perm
+  else .error .notfound
+
+/-- `DeleteAttribute` (keeper.go:373) with a raw name that is not the normalised one: the owner
+check resolves the RAW name (:385-:390: enforced when the name key hits, skipped — "name does
+not exist (anymore)" — when it misses); the scan runs over the attribute-key prefix of the raw
+name (:393) but keeps only records with `attr.Name == name` (:407), and stored names are
+normalised, so nothing is selected and the message is refused (:431-:436). -/
+def deleteAttributeMisspelt (s : State) (sp : Spelling) (name owner : String) : Except Err State :=
+  if !s.accts.contains owner then .error .noacct
+  else if sp.nameKeyHit && (!resolvesTo s name owner && nameExists s name) then .error .perm
+  else .error .notfound
+
+/-- One message with a possibly non-normalised name. -/
+def stepS (s : State) (x : SOp) : Except Err State :=
+  if x.sp.exact then step s x.op
+  else match x.op with
+    -- SetAttribute :157, UpdateAttributeExpiration :311, DeleteName msg_server.go:108,
+    -- BindName msg_server.go:58 normalise before any look-up
+    | .add .. | .updateExp .. | .deleteName .. | .bind .. | .beginBlock .. => step s x.op
+    | .update signer addr name ov ot nv nt =>
+      if x.sp.attrKeyHit then step s x.op
+      else updateAttributeKeyMiss s ⟨addr, name, ov, ot, none⟩ ⟨addr, name, nv, nt, none⟩ signer
+    | .delete signer addr name =>
+      if addr.isEmpty then .error .invalid else deleteAttributeMisspelt s x.sp name signer
+    | .deleteDistinct signer addr name _ =>
+      if addr.isEmpty then .error .invalid else deleteAttributeMisspelt s x.sp name signer
+    -- ModifyName msg_server.go:165 looks the RAW name up, then UpdateNameRecord normalises
+    | .transfer _ _ _ => if x.sp.nameKeyHit then step s x.op else .error .notfound
+
+def applyS (s : State) (x : SOp) : State :=
+  match stepS s x with
+  | .ok s' => s'
+  | .error _ => s
+
+def runS (s : State) (xs : List SOp) : State := xs.foldl applyS s
 
 /-! ### the sweep before commit f2249cacd (historical; only for the `…_before_fix` witnesses)
 
